@@ -217,6 +217,14 @@ def min_max_auto_replaced(box):
     max_width = max(min_width, box.max_width)
     max_height = max(min_height, box.max_height)
 
+    _, _, ratio = box.replacement.get_intrinsic_size(
+        box.style['image_resolution'], box.style['font_size'])
+    if ratio is None:
+        # Without intrinsic ratio, width and height are independent
+        box.width = max(min_width, min(width, max_width))
+        box.height = max(min_height, min(height, max_height))
+        return
+
     # (violation_width, violation_height)
     violations = (
         'min' if width < min_width else 'max' if width > max_width else '',
